@@ -22,3 +22,29 @@ contract(
     canaries=["implies(result is not None, leading_ats(npath, result[0] + 1))"],
     props=["C09", "C08"],
 )
+
+_NP_INV = [
+    # the program state mirrors the grammar automaton after the prefix read so far
+    "np_mode(npath[:_i]) != NP_FAIL",
+    "iff(in_quotes and escape, np_mode(npath[:_i]) == NP_QE)",
+    "iff(in_quotes and not escape, np_mode(npath[:_i]) == NP_Q)",
+    "iff(not in_quotes and quoted_segment, np_mode(npath[:_i]) == NP_A)",
+    "iff(not in_quotes and not quoted_segment, np_mode(npath[:_i]) == NP_B)",
+    "implies(escape, in_quotes)",
+    "implies(in_quotes, not quoted_segment)",
+    "''.join(buffer) == np_cur(npath[:_i])",
+    "iff(len(buffer) > 0, ''.join(buffer) != '')",
+    "segments == np_segs(npath[:_i])",
+]
+
+contract(
+    target=f"{M}::_parse_npath",
+    params={"npath": Str},
+    returns=SeqOf("_NPathSegment"),
+    ensures=["np_accepts(npath)", "result == np_result(npath)"],
+    exsures={"ValueError": ["not np_accepts(npath)"]},
+    locals={"buffer": StrJoin, "segments": SeqOf("_NPathSegment")},
+    loops={0: Loop(invariant=_NP_INV)},
+    canaries=["len(result) == 0"],
+    props=["C12", "C05", "C08"],
+)
